@@ -34,7 +34,8 @@ def _unitary_power(matrix: np.ndarray, power: float) -> np.ndarray:
 
 def _is_identity(matrix):
     """Checks whether M is identity."""
-    return np.allclose(matrix, np.eye(matrix.shape[0]))
+    # Absolute tolerance only: the default relative tolerance (1e-5) also drops small rotations.
+    return np.allclose(matrix, np.eye(matrix.shape[0]), rtol=0.0, atol=1e-8)
 
 
 def _flatten(x):
@@ -57,10 +58,8 @@ def _decompose_abc(matrix: np.ndarray) -> tuple[np.ndarray, np.ndarray, np.ndarr
     alpha = np.angle(matrix[0, 0]) + np.angle(matrix[0, 1]) - 2 * delta
     beta = np.angle(matrix[0, 0]) - np.angle(matrix[0, 1])
 
-    m00_abs = np.abs(matrix[0, 0])
-    if np.abs(m00_abs - 1.0) < 1e-9:
-        m00_abs = 1
-    theta = 2 * np.arccos(m00_abs)
+    # arctan2 of the two magnitudes is accurate for every angle; arccos(|m00|) loses small angles.
+    theta = 2 * np.arctan2(np.abs(matrix[0, 1]), np.abs(matrix[0, 0]))
 
     a = unitary(ops.rz(-alpha)) @ unitary(ops.ry(-theta / 2))
     b = unitary(ops.ry(theta / 2)) @ unitary(ops.rz((alpha + beta) / 2))
@@ -254,7 +253,8 @@ def decompose_multi_controlled_rotation(
         return [ops.MatrixGate(matrix).on(target)]
     elif len(controls) == 1:
         return _decompose_single_ctrl(matrix, controls[0], target)
-    elif is_special_unitary(matrix):
+    elif is_special_unitary(matrix, rtol=0.0, atol=1e-8):
+        # (the default relative tolerance would also accept, and so drop, phases up to 1e-5)
         return _decompose_su(matrix, controls, target)
     else:
         return _decompose_recursive(matrix, 1.0, controls, target, [])
